@@ -78,6 +78,10 @@ def run(ctx: Ctx) -> None:
                 depth = rng.choice([None, None, 1, 4, 9])
                 p = uu.Parameter(torch.randn(shape, dtype=torch.float64), tag, depth)
                 meta = {"id": pid, "tag": tag, "shape": list(shape), "depth": depth}
+            if rng.random() < 0.12:
+                # frozen when the groups are built: still an input parameter (it is listed, in place, and decays like the rest
+                # once it holds a gradient)
+                p.requires_grad_(False)
             pid += 1
             params.append(p)
             pmeta.append(meta)
